@@ -74,3 +74,15 @@ def c07_serializer_tables_agree_with_the_parser():
 @ground("C08")
 def c08_serializer_tables_agree_with_the_parser():
     return _record("C08")
+
+
+def attribute_prefix_witness():
+    """known finding: the serializer writes a namespaced attribute under its local name only (xlink:href -> href), so
+    the attribute comes back without its namespace (html5lib's own test_alphabeticalattributes carries a FIXME for it)"""
+    import html5lib
+    ns = "{http://www.w3.org/1999/xlink}href"
+    doc = html5lib.parse('<svg xlink:href="a">')
+    again = html5lib.parse(html5lib.serialize(doc, omit_optional_tags=False))
+    svg1 = doc.find(".//{http://www.w3.org/2000/svg}svg")
+    svg2 = again.find(".//{http://www.w3.org/2000/svg}svg")
+    return ns in svg1.attrib and ns not in svg2.attrib
